@@ -631,14 +631,29 @@ func runC11(c *Ctx) {
 					return
 				}
 				h := hc.Call.StaticCallee()
-				if h == nil || !inModule(h) || h.Blocks == nil || len(hc.Call.Args) != 1 || hc.Call.Args[0] != ssa.Value(fn.Params[0]) || len(h.Params) != 1 {
+				if h == nil || !inModule(h) || h.Blocks == nil || len(hc.Call.Args) != 1 || len(h.Params) != 1 {
 					return
+				}
+				// the helper is handed the row, or the address of the row's container field
+				viaSlot := false
+				if fa, isFA := hc.Call.Args[0].(*ssa.FieldAddr); isFA && fa.X == ssa.Value(fn.Params[0]) && fieldOfFieldAddr(fa) == rowEC {
+					viaSlot = true
+				} else if hc.Call.Args[0] != ssa.Value(fn.Params[0]) {
+					return
+				}
+				isLocLoad := func(v ssa.Value) bool {
+					if viaSlot {
+						u, ok := v.(*ssa.UnOp)
+						return ok && u.Op == token.MUL && u.X == ssa.Value(h.Params[0])
+					}
+					fl, b := loadedField(v)
+					return fl == rowEC && b == ssa.Value(h.Params[0])
 				}
 				// every return of h is the receiver's container, and h has created it when it was nil
 				allEC := true
 				for _, ret := range returnsOf(h) {
 					for _, rv := range phiClosure(results(ret)[0]) {
-						if fl, b := loadedField(rv); fl == rowEC && b == ssa.Value(h.Params[0]) {
+						if isLocLoad(rv) {
 							continue
 						}
 						if call, isC := rv.(*ssa.Call); isC && call.Call.StaticCallee() != nil && call.Call.StaticCallee().Name() == "NewErrorContainer" {
@@ -653,11 +668,16 @@ func runC11(c *Ctx) {
 					if !ok {
 						return
 					}
-					if f2, b := storeField(st.Addr); f2 == rowEC && b == ssa.Value(h.Params[0]) {
+					f2, b := storeField(st.Addr)
+					toLoc := f2 == rowEC && b == ssa.Value(h.Params[0])
+					if viaSlot {
+						toLoc = st.Addr == ssa.Value(h.Params[0])
+					}
+					if toLoc {
 						if call, ok := st.Val.(*ssa.Call); ok && call.Call.StaticCallee() != nil && call.Call.StaticCallee().Name() == "NewErrorContainer" {
 							for _, cf := range expandConds(dominatingConds(x.Block())) {
 								if e, nn, ok := nilTest(cf.Cond); ok {
-									if f3, _ := loadedField(e); f3 == rowEC && (nn == 1) == cf.Val {
+									if isLocLoad(e) && (nn == 1) == cf.Val {
 										hCreates = true
 									}
 								}
@@ -809,6 +829,28 @@ func containsNilPredicate(ix *idxEngine, f *ssa.Function) bool {
 	}
 	p := ix.proverFor(f)
 	el := f.Params[0]
+	// decided by induction over its scan loop, whatever the direction and style of the loop: every way of answering
+	// "no" (false) has seen every element non-nil
+	if isBoolType(f.Signature.Results().At(0).Type()) {
+		allNo := true
+		nNo := 0
+		for _, rc := range returnCases(f) {
+			if k, isC := constBool(rc.Vals[0]); isC && k {
+				continue // "yes, there is a nil": at worst the slow path is taken needlessly
+			}
+			nNo++
+			at := ssa.Instruction(rc.Ret)
+			if rc.Into != nil {
+				at = rc.Via.Instrs[len(rc.Via.Instrs)-1]
+			}
+			if ok, _ := scanEstablishesNoNil(p, el, at); !ok {
+				allNo = false
+			}
+		}
+		if allNo && nNo > 0 {
+			return true
+		}
+	}
 	sawTrue, sawFalse := false, false
 	for _, ret := range returnsOf(f) {
 		k, isC := constBool(results(ret)[0])
